@@ -121,8 +121,14 @@ def single_pass_pairing(ctx: Ctx) -> None:
             if not uses:
                 problems.append(f'{f.name}() is not consumed together with its label list')
             for u in uses:
-                if not (u.args and norm(u.args[0]) == lst):
-                    problems.append(f'`{call_name(u)}` pairs the results with `{norm(u.args[0]) if u.args else "?"}` instead of `{lst}`')
+                # the label list is the first argument: positional, or by the keyword of the helper's first parameter
+                first = u.args[0] if u.args else None
+                if first is None and call_name(u).startswith('self.') and parent.cls is not None:
+                    callee = parent.cls.methods.get(call_name(u).split('.', 1)[1])
+                    if callee is not None and len(callee.params) > 1:
+                        first = kwarg(u, callee.params[1])
+                if not (first is not None and norm(first) == lst):
+                    problems.append(f'`{call_name(u)}` pairs the results with `{norm(first) if first is not None else "?"}` instead of `{lst}`')
             fresh = [a for a in walk_local(parent.node) if isinstance(a, ast.Assign) and norm(a.targets[0]) == lst and norm(a.value) == '[]']
             if len(fresh) != 1:
                 problems.append(f'`{lst}` is not a fresh empty list of this call')
